@@ -1,10 +1,11 @@
 import BoltonsVerif.Common
 import BoltonsVerif.C18.Model
+import BoltonsVerif.Generated.C18_Consts
 /-
 C18 line protocol.  One line = one whole history.
 
   B <max_size> <op> ...            SpooledBytesIO(max_size)
-  S <max_size> <chunk> <op> ...    SpooledStringIO(max_size) with READ_CHUNK_SIZE = chunk
+  S <max_size> <chunk> <op> ...    SpooledStringIO(max_size) with READ_CHUNK_SIZE = chunk (`R` = the value in the source)
   M b|t <n> <hex>*n <mop> ...      MultiFileReader over n BytesIO (b) / StringIO (t) members
 
 ops:  w<hex> write | r<n> read(n) | ra read() | rl readline() | rL<n> readline(n) | rs readlines()
@@ -102,7 +103,7 @@ def handle (line : String) : String :=
     | some ms, some ops => ";".intercalate (runBytes (SBytes.init ms) ops [])
     | _, _ => "bad-op"
   | "S" :: ms :: ch :: toks =>
-    match ms.toNat?, ch.toNat?, parseOps charsOfHex? toks with
+    match ms.toNat?, (if ch = "R" then some C18.Generated.READ_CHUNK_SIZE else ch.toNat?), parseOps charsOfHex? toks with
     | some ms, some ch, some ops => ";".intercalate (runStr (SStr.init ms ch) ops [])
     | _, _, _ => "bad-op"
   | "M" :: kind :: n :: rest =>
